@@ -826,7 +826,7 @@ func runCLI(ctx context.Context, t interface {
 func TestCLIConfiguredOptions(t *testing.T) {
 	r := evid.R()
 	ctx := context.Background()
-	r.Check(t, r.Scale(64, 1600), 4, func(t *rapid.T) {
+	r.Check(t, r.Scale(64, 1000), 4, func(t *rapid.T) {
 		runCLI(ctx, t, r, genCLICase(t))
 	})
 }
